@@ -22,7 +22,7 @@ func (*c12World) ID() string   { return "C12" }
 func (*c12World) Name() string { return "c12" }
 func (*c12World) Runs(tier string) int {
 	if tier == "thorough" {
-		return 160000
+		return 2000000
 	}
 	return 24000
 }
